@@ -107,6 +107,14 @@ func fitsM3(bs, n int) bool {
 	return uint64(n)*8>>(8*uint(bs)) == 0
 }
 
+// fitsM3OrOther: ISO 9797-1 method 3 cannot represent long messages in tiny blocks.
+func fitsM3OrOther(scheme, bs, n int) bool {
+	if schemeNames[scheme] != "iso9797m3" {
+		return true
+	}
+	return fitsM3(bs, n)
+}
+
 func selfTest() error {
 	// spot values from the definitions / the repository's bs=16 test tables
 	if got := refPad(0, 8, []byte{1, 2, 3}); !bytes.Equal(got, []byte{1, 2, 3, 5, 5, 5, 5, 5}) {
@@ -238,6 +246,22 @@ func checkRoundTrip(c rtCase, r *h.Rec) error {
 		for i := range b {
 			b[i] = 0xEE ^ byte(i)
 		}
+	}
+	// ... and the mirror image: results the caller KEEPS must not change when the
+	// padder is used again (a result aliasing library-owned memory would).
+	other := gen.Fill(gen.Mix(c.Seed, 77), (c.Len+1)%(3*c.BS+1))
+	if fitsM3OrOther(c.Scheme, c.BS, len(other)) {
+		o2 := p.Pad(append([]byte{}, other...))
+		if u2, err := p.Unpad(append([]byte{}, o2...)); err != nil || !bytes.Equal(u2, other) {
+			return fmt.Errorf("second message on the same padder: Unpad(Pad(m2)) = %x, %v", u2, err)
+		}
+		p.Pad(nil)
+	}
+	if !bytes.Equal(padded, want) {
+		return fmt.Errorf("a Pad result kept by the caller changed when the padder was used again: %x -> %x", want, padded)
+	}
+	if !bytes.Equal(out, orig) {
+		return fmt.Errorf("an Unpad result kept by the caller changed when the padder was used again: %x -> %x", orig, out)
 	}
 	scribble(padded)
 	scribble(out)
